@@ -250,11 +250,15 @@ func corpusCases(g *vlib.Rng) []Case {
 		}
 		out = append(out, Case{Kind: "dnpub", Tag: bk.tag, A: []string{hx(bk.key), hx(one)}})
 	}
-	// the documented junk region, reached on purpose (the real code is run and judged there too): G + (n-1)G = infinity
+	// the point at infinity, reached on purpose: G + (n-1)G = infinity (DeriveNextPublic must return the zero buffer, not
+	// a key - BaseMultiplyAdd reports false there since the fix for C08's api-basemultiplyadd-identity); keys 0 and n
+	// (NewPrivateAddr / DecodePrivateAddr must panic "PublicFromPrivate error", not hand out BaseMultiply's stale bytes)
 	out = append(out, Case{Kind: "dnpub", Tag: "infinity", A: []string{hx(G), hx(nm1)}})
 	out = append(out, Case{Kind: "wif", Tag: "key-0", A: []string{hx(make([]byte, 32)), "128", "1"}})
 	out = append(out, Case{Kind: "wif", Tag: "key-n", A: []string{hx(nb(0)), "128", "1"}})
 	out = append(out, Case{Kind: "wifdec", Tag: "key-0", A: []string{hx([]byte(refB58Check(append(append([]byte{0x80}, make([]byte, 32)...), 1))))}})
+	out = append(out, Case{Kind: "wifdec", Tag: "key-n", A: []string{hx([]byte(refB58Check(append([]byte{0x80}, nb(0)...))))}})
+	out = append(out, Case{Kind: "wif", Tag: "key-0-uncompressed", A: []string{hx(make([]byte, 32)), "239", "0"}})
 	for _, kk := range [][]byte{make([]byte, 32), nb(0)} {
 		hw := &btc.HDWallet{Prefix: btc.Private, ChCode: make([]byte, 32), Key: append([]byte{0}, kk...)}
 		out = append(out, Case{Kind: "child", Tag: "priv-key-0-mod-n", A: append(strings.Fields(wTok(hw)), "0")})
@@ -643,13 +647,13 @@ func main() {
 		"SHA-256, SHA-512, RIPEMD-160, HMAC, PBKDF2 are modelled, not verified (Lean implementations compared with Go's on every run); scrypt is opaque (computed by the repository's package and handed to the model)",
 		"the elliptic curve in model and theorems is the reference curve of Base/Secp.lean; gocoin's limb arithmetic is tied to it by this run only (and is the subject of C08)",
 		"the reference-curve facts used by pub_commutes / ckd_pub_spec / derive_is_bip32 ((a+k mod n)G = aG + kG, parse∘serP = id on curve points, jG finite for 0<j<n) are no longer assumed: they are derived in Proofs/C14Curve.lean from C03's reference_curve_group_law / generator_order / parsePubkey_ser33 (Mathlib's Weierstrass group law; p, n prime by C08_Primes); serialize/WIF round trips import C15's Base58 decode∘encode = id",
-		"outside the model (answer `outside`): private keys ≡ 0 mod n and sums equal to the point at infinity (gocoin serialises stale coordinates there) - the real code is RUN there all the same and judged by the BIP32 reference wherever that defines a result or demands a refusal; only the junk value is uncompared. Public keys with x ≥ p or x off the curve are NOT outside any more: code (since fix 54b4684a/e70a8ce2) and model refuse them / panic, corpus badPubKeys",
+		"outside the model (answer `outside`): private EXTENDED keys ≡ 0 mod n (PublicFromPrivate returns nil and Child / Pub / PubAddr go on with the nil key) - the real code is RUN there all the same; the point at infinity is not serialised any more (fix for C08's api-*-identity findings): NewPrivateAddr / DecodePrivateAddr of a key ≡ 0 mod n panic, public Child with I_L·G + P = ∞ panics, DeriveNextPublic returns the zero buffer - code and model alike (corpus key-0 / key-n / infinity, keys wif-key-zero-mod-n-accepted, derive-next-public-infinity). In the outside region the code is judged by the BIP32 reference wherever that defines a result or demands a refusal; only the junk value is uncompared. Public keys with x ≥ p or x off the curve are NOT outside any more: code (since fix 54b4684a/e70a8ce2) and model refuse them / panic, corpus badPubKeys",
 		"not covered: non-ASCII white space in mnemonics, typed passwords longer than one 1024-byte terminal read, .others imports, the -p39 prompt (passphrases at the API level only; NFKD: known finding bip39-passphrase-not-nfkd), -encrypt/-decrypt",
 	}
 	r.Extra["observations"] = []string{
 		"HDWallet.Child never skips an index: BIP32 says I_L >= n or k_i = 0 makes index i invalid; Child reduces mod n and returns a key (theorem child_priv_never_skips; probability about 2^-127 per index; ckd_priv_spec / ckd_pub_spec are stated under exactly the guard 'CKD is defined')",
 		"make_wallet adds the key number to hdpath_last in uint32 arithmetic: a last path element within keycnt of 2^31-1 silently turns hardened (non-hardened last) or wraps to index 0 (hardened last) while the label keeps counting (m/0/2147483648); prvidx + hdsub likewise. The wallet accepts such configurations, the model mirrors them (corpus cases), BIP32 has no such path; histogram key wallet-accepted-outside-spec",
-		"secp256k1.BaseMultiply of a scalar = 0 mod n and DeriveNextPublic sums equal to the point at infinity serialise stale coordinates as a valid-looking key (BaseMultiply(0) = 034f355b...71aa, G+(n-1)G = 0379be66...); the model marks these 'outside'; wallet -l would refuse a zero key in VerifyKeyPair",
+		"btc.DeriveNextPublic ignores BaseMultiplyAdd's verdict: for a key that does not parse and for a sum equal to the point at infinity it returns the zero-filled buffer without an error (mirrored by the model; callers must check the result themselves)",
 		"bip39.MnemonicToByteArray splits on single spaces while its validity check uses strings.Fields: with tabs / double spaces it indexes the word map with \"\" (index 0) and reports a checksum error for a sentence EntropyFromMnemonic accepts; the wallet normalises white space before calling it",
 		"wallet -stdin with more than 1024 password bytes panics in getpass (pass[:n] on a [1024]byte array); the seed-file path reads at most 1024 bytes",
 		"atype=tap lists OP_1 <x-only internal key> without the BIP341/BIP86 tweak (gocoin's own convention; outside this property)",
